@@ -136,3 +136,20 @@ Theorem combine_max f r : (f <= combine_scores 3 f r /\ r <= combine_scores 3 f 
 Proof. unfold combine_scores, qmax2. simpl. destruct (Qle_bool f r) eqn:E; split; try lra.
   - apply Qle_bool_iff in E. exact E.
   - assert (~ (f <= r)%Q) by (intro H; apply Qle_bool_iff in H; congruence). lra. Qed.
+
+(* layout of scores='both': row 2i is query i's forward row, row 2i+1 its reverse row *)
+Theorem both_layout_rows {A} (fw : list A) : forall rv i, length fw = length rv ->
+  nth_error (both_layout fw rv) (2 * i) = nth_error fw i /\ nth_error (both_layout fw rv) (2 * i + 1) = nth_error rv i.
+Proof.
+  unfold both_layout. induction fw as [|f fw IH]; intros rv i Hl.
+  - destruct rv; [|discriminate]. cbn. destruct i; cbn; split; try reflexivity; destruct (i + (i + 0) + 1)%nat; reflexivity.
+  - destruct rv as [|r rv]; [discriminate|]. cbn [combine flat_map fst snd app]. destruct i as [|i].
+    + cbn. split; reflexivity.
+    + replace (2 * S i)%nat with (S (S (2 * i))) by lia. replace (S (S (2 * i)) + 1)%nat with (S (S (2 * i + 1))) by lia. cbn [nth_error].
+      apply IH. cbn in Hl. lia.
+Qed.
+Theorem both_layout_length {A} (fw rv : list A) : length fw = length rv -> length (both_layout fw rv) = (2 * length fw)%nat.
+Proof.
+  unfold both_layout. revert rv. induction fw as [|f fw IH]; intros rv Hl; destruct rv as [|r rv]; try discriminate; [reflexivity|].
+  cbn [combine flat_map app length]. rewrite IH by (cbn in Hl; lia). lia.
+Qed.
